@@ -12,10 +12,17 @@
    index counts as 0).
    Hypothesis: wf_program (terms are as process_term_match builds them: index None exactly for FUNCTION and KEYWORD
    terms; proved for every script, C03_every_accepted_script).  Finding #19 is repaired (b45daa1): the former guard
-   fn_guard is gone from every statement, and a name both called as a function and used otherwise is rejected. *)
+   fn_guard is gone from every statement, and a name both called as a function and used otherwise is rejected.
+   What is NOT a theorem here (K / oracle only, or another property's): that the lexer yields the terms written in the text
+   (`written in braces / angle brackets` is read off the term lists of the parser model; C01); the order of the four lists inside
+   NAMES is the definition of c_names — that the generated class really computes NAMES = ENDOGENOUS + EXOGENOUS + PARAMETERS + ERRORS
+   is C15_names_and_check_lines; verbatim blocks contribute no lag or lead (their text is not lexed); explicit lengths shorter
+   than the script's are imposed as given (C03_lags_leads) and then the range is NOT feasible — nothing more is claimed.
+   `two different equations` means two different NORMALISED TEXTS: any spacing difference that the normalisation keeps counts
+   (C03_same_equation_different_spacing_refuted — a known finding). *)
 From Coq Require Import String Ascii List Bool ZArith.
 Import ListNotations.
-Require Import PyBase Symbols Merge ParseEq ParseModel Classify ClassifyFacts ClassifyProgram ClassifyClass ClassifyMain ClassifyRange ClassifyScript ClassifyEndToEnd ClassifyExamples.
+Require Import PyBase PyStr Symbols SymbolsFacts Merge ParseEq ParseModel Classify ClassifyFacts ClassifyProgram ClassifyClass ClassifyMain ClassifyRange ClassifyScript ClassifyEndToEnd ClassifyExamples ClassifyOrder.
 Open Scope string_scope.
 
 (* Every script: whatever the syntax-check oracle `chk`, a script that the parser model accepts IS a program (its
@@ -238,3 +245,58 @@ Theorem C03_function_names_are_not_variables : forall p syms x, wf_program p = t
   is_endogenous p x = false /\ is_exogenous p x = false /\ is_parameter p x = false /\ is_error p x = false.
 Proof. exact function_names_are_not_variables. Qed.
 Print Assumptions C03_function_names_are_not_variables.
+
+(* ---------- which exception: the first error in processing order (the real rule; the two theorems above with their
+   "nothing else is wrong anywhere" hypotheses are corollaries for scripts with a single kind of error) ---------- *)
+(* statements are parsed in order: the first statement that fails decides, whatever comes later *)
+Theorem C03_first_failing_statement : forall p1 st p2 ls1 x,
+  program_by_equation p1 = Ret ls1 -> stmt_symbols st = Raise x -> program_symbols (p1 ++ st :: p2) = Raise x.
+Proof. exact first_failing_statement. Qed.
+Print Assumptions C03_first_failing_statement.
+(* every statement parses: the merge runs over the symbols in script order (merge_run: table and verbatim blocks so far);
+   the first symbol whose combination with the table fails decides, whatever clashes come later *)
+Theorem C03_first_failing_symbol : forall p ls l1 s l2 d1 vb1 n x,
+  program_by_equation p = Ret ls -> concat ls = (l1 ++ s :: l2)%list ->
+  merge_run l1 [] [] = Ret (d1, vb1) -> sname s = Some n -> dict_combine n s d1 = Raise x ->
+  program_symbols p = Raise x.
+Proof. exact first_failing_symbol. Qed.
+Print Assumptions C03_first_failing_symbol.
+(* Y = a ; Z = {a} ; Y = b -> SymbolError,  Y = b ; Y = a ; Z = {a} -> ParserError, a malformed statement before every merge error *)
+Theorem C03_first_error_examples :
+  program_symbols [SEq [tv "Y" 0] [tv "a" 0] "Y[t] = a[t]" "c1"; SEq [tv "Z" 0] [tp "a" 0] "Z[t] = a[t]" "c2"; SEq [tv "Y" 0] [tv "b" 0] "Y[t] = b[t]" "c3"]
+    = Raise SymbolError /\
+  program_symbols [SEq [tv "Y" 0] [tv "b" 0] "Y[t] = b[t]" "c3"; SEq [tv "Y" 0] [tv "a" 0] "Y[t] = a[t]" "c1"; SEq [tv "Z" 0] [tp "a" 0] "Z[t] = a[t]" "c2"]
+    = Raise ParserError /\
+  parse_model_nocheck ("Y = a" ++ nl_s ++ "Z = {a}" ++ nl_s ++ "Y = b") = PErr SymbolError /\
+  parse_model_nocheck ("Y = b" ++ nl_s ++ "Y = a" ++ nl_s ++ "Z = {a}") = PErr ParserError /\
+  parse_model_nocheck ("Y = a" ++ nl_s ++ "Z = {a}" ++ nl_s ++ "if = 1") = PErr ParserError.
+Proof. exact first_error_examples. Qed.
+Print Assumptions C03_first_error_examples.
+
+(* per symbol (the anchor's state Symbol.lags / Symbol.leads): an int <= 0 and an int >= 0 that bound every offset written next to
+   the name anywhere in the script (a string index counts as 0) and are 0 or attained *)
+Theorem C03_symbol_lengths : forall p syms v x, wf_program p = true -> program_symbols p = Ret syms ->
+  In v syms -> sname v = Some x -> unindexed_type (stype v) = false ->
+  exists z z', slags v = Some (IInt z) /\ sleads v = Some (IInt z') /\ (z <= 0)%Z /\ (0 <= z')%Z /\
+    (forall a, In a (amentions p) -> aname a = x -> (z <= aoff a <= z')%Z) /\
+    (z = 0%Z \/ exists a, In a (amentions p) /\ aname a = x /\ aoff a = z) /\
+    (z' = 0%Z \/ exists a, In a (amentions p) /\ aname a = x /\ aoff a = z').
+Proof. exact symbol_lengths. Qed.
+Print Assumptions C03_symbol_lengths.
+
+(* KNOWN FINDING (reviewer-B): "defined by two DIFFERENT equations" — the same equation, same terms on both sides, written
+   twice with different spacing is rejected as defined twice ('Y = X' then 'Y=X'); 'Y = X' then 'Y  =  X' is accepted *)
+Theorem C03_same_equation_different_spacing_refuted :
+  exists l r e1 c1 e2 c2, program_symbols [SEq l r e1 c1; SEq l r e2 c2] = Raise ParserError /\
+                          parse_model_nocheck ("Y = X" ++ nl_s ++ "Y=X") = PErr ParserError /\
+                          exists syms, parse_model_nocheck ("Y = X" ++ nl_s ++ "Y  =  X") = POk syms.
+Proof. exact same_equation_different_spacing_refuted. Qed.
+Print Assumptions C03_same_equation_different_spacing_refuted.
+
+(* the default range for ANY integer lengths (negative explicit lags= / leads= included): whenever periods are yielded they lie
+   between the positions lags and n - 1 - leads, are at most n and distinct (7cd6323: nothing wraps, PeriodIter zips the range
+   with the label slice); the exact lists for negative lengths are instances in ClassifyExamples.default_range_examples *)
+Theorem C03_default_range_bounds : forall n lags leads l, default_range n lags leads = Ret l ->
+  (forall t, In t l -> (lags <= t <= Z.of_nat n - 1 - leads)%Z) /\ (length l <= n)%nat /\ NoDup l.
+Proof. exact default_range_bounds. Qed.
+Print Assumptions C03_default_range_bounds.
